@@ -262,7 +262,9 @@ func (d *ParagraphDetector) detectLeftMargin(lines []Line) float64 {
 	maxCount := 0
 	mostCommonBucket := 0
 	for bucket, count := range marginCounts {
-		if count > maxCount {
+		// Map iteration order is random: on a tie take the leftmost margin, so the
+		// result does not change from run to run.
+		if count > maxCount || (count == maxCount && bucket < mostCommonBucket) {
 			maxCount = count
 			mostCommonBucket = bucket
 		}
@@ -476,7 +478,8 @@ func (d *ParagraphDetector) detectDominantAlignment(lines []Line) LineAlignment 
 	maxCount := 0
 	dominant := AlignUnknown
 	for align, count := range counts {
-		if count > maxCount {
+		// Ties are broken by the alignment's own order, not by map iteration order.
+		if count > maxCount || (count == maxCount && align < dominant) {
 			maxCount = count
 			dominant = align
 		}
